@@ -438,6 +438,14 @@ func (p *Program) intrinsic(name string) externalFn {
 		return func(fr *frame, a []value) value { return true }
 	case "vpPoolReuse":
 		return func(fr *frame, a []value) value { fr.i.poolReuse = a[0].(bool); return nil }
+	case "vpPoolFlush":
+		// every sync.Pool is emptied (natively: two GC cycles): the next Get calls New
+		return func(fr *frame, a []value) value {
+			for k := range fr.i.pools {
+				delete(fr.i.pools, k)
+			}
+			return nil
+		}
 	case "vpMapReverse":
 		return func(fr *frame, a []value) value { fr.i.mapRev = a[0].(bool); return nil }
 	case "vpCancelAt":
